@@ -244,6 +244,25 @@ def run(prog, ctx):
                 elif ss.k == "UnaryOperator" and ss.j.get("op") == "*" and ss.children[0].strip().k == "DeclRefExpr":
                     qt.append((ss.children[0].strip(), gcf.blocks[b].cond))
     if not qt:
+        # the verdict kept in a flag: `quoted = (text[0] == '"'); ... if (quoted)`  - the comparison is the place the text is looked at
+        for x in g.walk():
+            if x.k == "BinaryOperator" and x.j.get("op") == "==" and ord('"') in (x.children[0].const_value(), x.children[1].const_value()):
+                up9 = x.up()
+                while up9 is not None and up9.k in ("ParenExpr", "ImplicitCastExpr", "CStyleCastExpr"):
+                    up9 = up9.up()
+                flagged = up9 is not None and (up9.k == "DeclStmt" or (up9.k == "BinaryOperator" and up9.j.get("op") == "=" and up9.children[0].strip().k == "DeclRefExpr"))
+                if not flagged:
+                    continue
+                fl9 = render(up9.children[0]) if up9.k == "BinaryOperator" else next((d9.get("name") for d9 in up9.j.get("decls", []) if d9.get("init", -1) >= 0), None)
+                if not fl9 or not any(gcf.blocks[b9].cond is not None and render(gcf.blocks[b9].cond.strip()).lstrip("!(").rstrip(")") == fl9 for b9 in range(len(gcf.blocks))):
+                    continue        # the flag is not what a branch tests
+                for side in x.children:
+                    ss = side.strip()
+                    if ss.k == "ArraySubscriptExpr" and ss.children[0].strip().k == "DeclRefExpr" and ss.children[1].const_value() == 0:
+                        qt.append((ss.children[0].strip(), x))
+                    elif ss.k == "UnaryOperator" and ss.j.get("op") == "*" and ss.children[0].strip().k == "DeclRefExpr":
+                        qt.append((ss.children[0].strip(), x))
+    if not qt:
         ctx.fail("P1", "extended value: a value starting with a quote is one item", g.where, "no test for an opening quote", key="quote-test-missing")
     for var, cond in qt:
         ds = grd.reaching(var.j["name"], cond)
